@@ -93,11 +93,15 @@ func loadVariants() []variant {
 			ID     string   `json:"id"`
 			Breaks string   `json:"breaks_property"`
 			Det    []string `json:"detected_by"`
+			Miss   string   `json:"documented_miss"`
 		}
 		if json.Unmarshal(b, &meta) != nil {
 			continue
 		}
 		v := variant{Name: "seeded-" + meta.ID, Path: filepath.Join(filepath.Dir(m), "patch.diff"), Kind: "breaking", Props: []string{meta.Breaks}, Origin: "sub-agent"}
+		if meta.Miss != "" {
+			v.Kind = "limit" // a documented miss (DESIGN 13.6)
+		}
 		// rules expected: those recorded for the broken property
 		for _, d := range meta.Det {
 			if strings.HasPrefix(d, meta.Breaks+".") {
@@ -122,7 +126,7 @@ type variantResult struct {
 	Variant  string   `json:"variant"`
 	Kind     string   `json:"kind"`
 	Origin   string   `json:"origin"`
-	Outcome  string   `json:"outcome"` // killed | missed | silent | alarmed | skipped
+	Outcome  string   `json:"outcome"` // killed | missed | silent | alarmed | skipped | limit-reported | limit-silent
 	Reported []string `json:"reported_rules,omitempty"`
 	Expected []string `json:"expected_rules,omitempty"`
 	Detail   string   `json:"detail,omitempty"`
@@ -183,6 +187,13 @@ func analyseVariant(repo string, v variant, prop string) (res variantResult) {
 	}
 	res.Reported = sortedKeys(rep)
 	switch v.Kind {
+	case "limit":
+		// a correct new feature on which rules are known to report (DESIGN 13.6); recorded, never an expectation failure
+		if len(rep) > 0 {
+			res.Outcome = "limit-reported"
+		} else {
+			res.Outcome = "limit-silent"
+		}
 	case "breaking":
 		if len(rep) > 0 {
 			res.Outcome = "killed"
